@@ -8,6 +8,7 @@
    of notifications, all room / user names, every block map. *)
 From Slsk Require Import Base.Tac.
 From Slsk Require Import C19.Spec C19.Model C19.Proofs.
+From SlskGen Require Import RoomGen.
 
 (* Known/privacy flag, joined flag, user list, owner, member set, OPERATOR SET, tickers, and every
    user's status, stats and privileges equal the replay - for ALL notification lists, with no side
